@@ -149,7 +149,13 @@ class TraceInterpreter(ArchSpecInterpreter):
 
         if not isinstance(mt.code, (action.TweezerFunction, func.Lambda)):
             raise ValueError("Method code must be a MoveFunction or Lambda")
-        self.run(mt, args=args, kwargs=kwargs)
+        try:
+            self.run(mt, args=args, kwargs=kwargs)
+        finally:
+            # `run` binds the arguments after taking kirin's re-entrancy lock but
+            # before its own try/finally: a call with bad arguments would otherwise
+            # leave this instance locked ("recursive eval is not allowed") for good.
+            self._eval_lock = False
         return self.trace.copy()
 
 
